@@ -212,3 +212,35 @@ pub mod proto {
         }
     }
 }
+
+/// Named scheduling points in the optimistic-read / guarded-step windows of the store's calls.
+/// A point is a no-op unless a controller is installed; the controller decides when the calling
+/// thread may go on (threads it does not know pass straight through).
+pub mod sched {
+    use std::sync::atomic::{AtomicBool, Ordering};
+    use std::sync::{Arc, RwLock};
+
+    pub trait Controller: Send + Sync {
+        fn point(&self, name: &'static str);
+    }
+
+    static ARMED: AtomicBool = AtomicBool::new(false);
+    static CONTROLLER: RwLock<Option<Arc<dyn Controller>>> = RwLock::new(None);
+
+    pub fn set_controller(controller: Option<Arc<dyn Controller>>) {
+        let armed = controller.is_some();
+        *CONTROLLER.write().unwrap_or_else(|p| p.into_inner()) = controller;
+        ARMED.store(armed, Ordering::SeqCst);
+    }
+
+    #[inline]
+    pub(crate) fn point(name: &'static str) {
+        if !ARMED.load(Ordering::Relaxed) {
+            return;
+        }
+        let controller = CONTROLLER.read().unwrap_or_else(|p| p.into_inner()).clone();
+        if let Some(controller) = controller {
+            controller.point(name);
+        }
+    }
+}
